@@ -1249,7 +1249,12 @@ func (gc GoCode) Write(w io.Writer, indent int) error {
 	if !gc.Multiline {
 		return writeIndent(w, indent, `{{ `, string(source), ` }}`)
 	}
-	if err := writeIndent(w, indent, "{{"+string(source)+"\n"); err != nil {
+	open := "{{"
+	if !bytes.HasPrefix(source, []byte("\n")) {
+		// The code starts on the same line as the braces, e.g. `{{ x := 1 // comment`.
+		open = "{{ "
+	}
+	if err := writeIndent(w, indent, open+string(source)+"\n"); err != nil {
 		return err
 	}
 	return writeIndent(w, indent, "}}")
